@@ -263,7 +263,7 @@ def check_to_bqm(ctx: Ctx, fi: FuncInfo):
     ctx.check(ok, "RW-EQUIV", fi, "return expressions are modelled whole by the visitor", f"SympyToBQM.visit({ex})", "the return expression is not handed to the visitor as a whole", loop)
     # accumulation: every definition contributes
     acc = [n for n in loop.body if isinstance(n, ast.If) and "is None" in norm(n.test)]
-    ok = len(acc) == 1 and any(isinstance(x, ast.AugAssign) and isinstance(x.op, ast.Add) for x in ast.walk(acc[0])) and not any(isinstance(x, (ast.Continue, ast.Break)) for x in ast.walk(loop))
+    ok = len(acc) == 1 and any(isinstance(x, ast.AugAssign) and isinstance(x.op, ast.Add) for x in ast.walk(acc[0])) and not any(isinstance(x, (ast.Continue, ast.Break)) for x in _own_loop_nodes(loop))
     ctx.check(ok, "MP-vars", fi, "every return bit contributes to the model", "e = new_e / e += new_e", "some definitions are skipped when the model is summed", loop)
     # formats
     lit = ctx.repo.module("bqm").globals_assigned.get("BQMFormat")
@@ -331,3 +331,18 @@ def check_decode(ctx: Ctx, fi: FuncInfo):
         ctx.check(bool(reads) and all(norm(n.slice) == bv for n in reads), "OR-FLOW", fi, "each bit read from the sample under its own name", f"sample[{bv}]", f"a bit is read from the sample under {[norm(n.slice) for n in reads]}, not under its own name `{bv}`", c)
     par_st = fi.pm.get(c)
     ctx.check(isinstance(par_st, ast.Assign) and norm(par_st.targets[0]).endswith(f"[{a}.name]"), "OR-FLOW", fi, "result keyed by argument name", "", "", c)
+
+
+def _own_loop_nodes(loop):
+    """nodes of the loop body that belong to this loop: a break / continue inside a nested loop leaves that loop only"""
+    stack = list(loop.body)
+    while stack:
+        n = stack.pop()
+        yield n
+        for c in ast.iter_child_nodes(n):
+            if isinstance(c, (ast.For, ast.While, ast.AsyncFor, ast.FunctionDef, ast.AsyncFunctionDef, ast.Lambda)):
+                # the else-clause of a nested loop still belongs to the outer iteration
+                for e_ in getattr(c, "orelse", []) or []:
+                    stack.append(e_)
+                continue
+            stack.append(c)
